@@ -179,6 +179,7 @@ def rule_c(model, rep):
     for q, fn in unit.functions():
         if not q.startswith("Base64Engine."):
             continue
+        aliases = {ast.unparse(a.targets[0]) for a in walk_no_nested(fn) if isinstance(a, ast.Assign) and ast.unparse(a.value) == "self._decode64" and isinstance(a.targets[0], ast.Name)}
         # lookups through the decode map: subscript `<something>[...]` where base name is decode64/_decode64/dmap
         for node in walk_no_nested(fn):
             if isinstance(node, ast.Subscript) and isinstance(node.ctx, ast.Load) and not isinstance(node.slice, ast.Slice):
@@ -195,6 +196,19 @@ def rule_c(model, rep):
                     # map(next_value) style handled below
                     rep.check(ok, R, site(B, q), ast.unparse(node), "decode-map lookup is inside try/except KeyError -> ValueError",
                               witness="decoding a string with a character outside the alphabet raises KeyError")
+            # direct calls: `_decode64` is the decode table's __getitem__, so calling it raises KeyError just the same
+            if isinstance(node, ast.Call) and (ast.unparse(node.func) == "self._decode64" or
+                                               (isinstance(node.func, ast.Name) and node.func.id in aliases)):
+                n += 1
+                t = unit.enclosing(node, ast.Try)
+                ok = False
+                while t is not None:
+                    if any(h.type is not None and qtext(h.type).loose("KeyError") and
+                           any(isinstance(x, ast.Raise) and qtext(x).loose("ValueError") for x in h.body) for h in t.handlers):
+                        ok = True
+                    t = unit.enclosing(t, ast.Try)
+                rep.check(ok, R, site(B, q), ast.unparse(node), "decode-table call is inside try/except KeyError -> ValueError",
+                          witness="a byte outside the alphabet raises KeyError instead of ValueError (e.g. h64.check_repair_unused(b'ab!'))")
             if isinstance(node, ast.Call) and ast.unparse(node.func) in ("map",) and node.args and ast.unparse(node.args[0]) in (
                     "self._decode64", "decode64"):
                 n += 1
